@@ -54,7 +54,9 @@ def first_pred_failure(M, ops, pred, derive=lambda s: s):
     return None
 
 
-def load_corpus(prop, shared=None):
+def load_corpus(prop, shared=None, cls=None):
+    """corpus histories for this property (+ a shared directory); a file may name its network class in "class"
+    (default Hypergraph) and is used only by the matching state machine"""
     cases = []
     files = sorted(glob.glob(os.path.join(VERIF, "corpus", prop, "*.json")))
     if shared:
@@ -62,7 +64,7 @@ def load_corpus(prop, shared=None):
     for f in files:
         try:
             j = json.load(open(f))
-            if "ops" in j:
+            if "ops" in j and (cls is None or j.get("class", "Hypergraph") == cls):
                 cases.append(j["ops"])
         except Exception:  # noqa
             pass
@@ -73,7 +75,7 @@ def run_sm(ctx, M, driver, fields, pred, n_hist, hist_len=(1, 30), weights=None,
            corr_name="correspondence", extra_histories=(), derive=lambda s: s):
     """returns (disagreements, histories)"""
     rng = ctx.rng
-    histories = [copy.deepcopy(h) for h in load_corpus(ctx.prop, getattr(M, 'CORPUS', None))] + [copy.deepcopy(h) for h in extra_histories]
+    histories = [copy.deepcopy(h) for h in load_corpus(ctx.prop, getattr(M, 'CORPUS', None), getattr(M, 'NAME', None))] + [copy.deepcopy(h) for h in extra_histories]
     ctx.stats["corpus_histories"] = len(histories)
     histories += [M.gen_history(rng, hist_len[0], hist_len[1], weights) for _ in range(n_hist)]
     all_snaps = []
